@@ -129,6 +129,11 @@ def check_dot(ctx, prop, exporter_kind, lib, nodes, idmap, names, par, ch, s, st
         kw["filter_"] = lambda n: lab(n) not in cur["hidden"]
     if maxlevel is not None:
         kw["maxlevel"] = maxlevel
+        if (s + len(stop) + len(hidden)) % 3 == 0:
+            from .c06 import int_like
+
+            kw["maxlevel"] = int_like(maxlevel)  # a bool / an int-subclass instance with the same value
+            ctx.count("%s.maxlevel_int_subclass" % prop)
     indent = 4
     graph, gname = "digraph", "tree"
     options = []
@@ -357,6 +362,11 @@ def check_mermaid(ctx, prop, lib, nodes, idmap, names, par, ch, s, stop, hidden,
         kw["filter_"] = lambda n: lab(n) not in cur["hidden"]
     if maxlevel is not None:
         kw["maxlevel"] = maxlevel
+        if (s + len(stop) + len(hidden)) % 3 == 0:
+            from .c06 import int_like
+
+            kw["maxlevel"] = int_like(maxlevel)  # a bool / an int-subclass instance with the same value
+            ctx.count("%s.maxlevel_int_subclass" % prop)
     indent = 0
     graph, gname = "graph", "TD"
     options = []
